@@ -342,7 +342,7 @@ fn to_call(e: &IoEvent) -> IoCall {
     }
 }
 
-fn policy_key(policy: &[Stmt]) -> String {
+pub fn policy_key(policy: &[Stmt]) -> String {
     let mut s = String::from("policy {");
     print_stmts(&mut s, policy);
     s.push_str(" }");
@@ -698,7 +698,7 @@ pub fn run(args: &Args) {
     rep.finish()
 }
 
-fn stmt_size(b: &[Stmt]) -> usize {
+pub fn stmt_size(b: &[Stmt]) -> usize {
     b.iter()
         .map(|s| match s {
             Stmt::If(bs, fb) => 1 + bs.iter().map(|(_, b)| stmt_size(b)).sum::<usize>() + fb.as_ref().map_or(0, |b| stmt_size(b)),
